@@ -351,6 +351,8 @@ def run(run, tier):
     t2 = time.time()
     from . import c06_model
     corr = c06_model.correspondence(run, EoN, results, tier) if hasattr(c06_model, 'correspondence') else {'status': 'not built yet'}
+    from . import c06out
+    corr_out = c06out.part(run, EoN, tier, props)      # output layer of the 35 entry points without a *_from_graph model (Props/C06out.v, component 'out')
     nontriv = sum(1 for r in results if r[2][0] == 'OK')
     C.proof_coverage(run, props, len(cases) + blk['n_eval'], min(len(distinct), nontriv) + blk['n_distinct'],
                      'every ODE entry point of analytic.py (%d entries, both return_full_data values where offered) on random graphs of 3-9 nodes '
@@ -360,7 +362,7 @@ def run(run, tier):
                      'homogeneous pairwise models are limited to requests inside the closure\'s domain (rho, or a regular graph).  ' % len(OC.ENTRIES) + S2.RULE,
                      samples, {'distribution': stats, 'per_entry': per_entry, 'oracle_violations': nviol, 'distinct_violation_keys': len(seen), 'refutation_witnesses_confirmed_on_code': wrep, 'rhs_regeneration': regen,
                                'rhs2': dict(blk['dist'], samples=blk['samples'], hand_written_model='coq/Model/Rhs2D.v (component rhs2): proved equal to the definitions generated from the source by translate/rhs2d2v.py (Gen/Rhs2.v, theorems C06_generated_*), both tied by point evaluation'),
-                               'correspondence': corr, 'wall_coq_s': round(t1 - t0, 1), 'wall_impl_s': round(t2 - t1, 1)})
+                               'correspondence': corr, 'correspondence_out': corr_out, 'wall_coq_s': round(t1 - t0, 1), 'wall_impl_s': round(t2 - t1, 1)})
     run.assumptions += ['Model/Rhs2D.v is a hand-written model of the 2-D / node-level right-hand sides; its precondition is index_of_node = enumerate(nodelist) over a simple graph (what every caller in analytic.py builds)',
                         'scipy.integrate.odeint / ode return the initial value as first row and the solution to tolerance',
                         'curve checks use tolerances 1e-6*N (sum) and 1e-5*N (bounds, monotonicity); row 0 relative 1e-9']
@@ -374,6 +376,9 @@ def replay(rp):
         res = S2.case_spec(EoN, r['params'])
         print('replay rhs2_spec: %s' % (res or 'holds'))
         return 1 if res else 0
+    if r.get('kind') == 'c06out':
+        from . import c06out
+        return c06out.replay(r)
     if not r.get('case'):
         print('replay: no concrete input recorded (%s)' % rp.get('what', '')[:200]); return 0
     case, clause = r['case'], r['clause']
